@@ -7,6 +7,15 @@
   (`Done`), closers (`GracefulClose`) and workers (`start`).  Nothing in the state says "there is one
   worker": workers are a list that `tryEnqueue` / the deferred hand-off append to, so "at most one worker"
   is a theorem, not an assumption.
+
+  The end of `start` is modelled step by step, as the code has it: `Load` of
+  updateNegotiationNeededFlagOnEmptyChain (`afterLoop`), `Store(false)` (`clearFlag`), then the
+  onNegotiationNeeded callback with its own steps (`cbBegin`, `cbAct`).  What the callback does is a
+  parameter of the system (`NegMode`): nothing, enqueue a check, or what
+  `PeerConnection.onNegotiationNeeded` does (`rearm`: `IsEmpty()` under the lock; then, in a separate
+  step, either `Enqueue(negotiationNeededOp)` or `flag.Store(true)`).  API goroutines that call
+  `PeerConnection.onNegotiationNeeded` from outside the worker (AddTrack, RemoveTrack, CreateDataChannel,
+  setDescription reaching stable, …) are the `callers`.
 -/
 namespace WebrtcVerif.Ops
 
@@ -14,6 +23,18 @@ namespace WebrtcVerif.Ops
 inductive Item
   | op (id : Nat)
   | waiter (caller : Nat)
+  | check (k : Nat)             -- the k-th negotiation-needed check closure created by onNegotiationNeeded
+  deriving DecidableEq, Repr
+
+def Item.isCheck : Item → Bool
+  | .check _ => true
+  | _ => false
+
+/-- what the worker's onNegotiationNeeded callback does -/
+inductive NegMode
+  | none      -- nothing (a test double)
+  | enqueue   -- enqueues a check unconditionally (a test double)
+  | rearm     -- PeerConnection.onNegotiationNeeded: queue non-empty → set the flag again, else enqueue the check
   deriving DecidableEq, Repr
 
 /-- program counter of a worker goroutine (`operations.start`) -/
@@ -21,8 +42,25 @@ inductive WPc
   | start                       -- spawned, before its first `pop`
   | popped (fn : Option Item)   -- `pop` returned `fn`; not yet called
   | running (it : Item)         -- inside `fn()`
+  | loaded                      -- `fn == nil`, `flag.Load()` returned true; `Store(false)` not yet done
+  | cleared                     -- `flag.Store(false)` done; callback not yet called
+  | cb (empty : Bool)           -- inside the callback (mode `rearm`): `IsEmpty()` returned `empty`
+  | cbDone                      -- SWAPPED variant only (`stepSw`): callback returned, `Store(false)` not yet done
   | defer_                      -- loop left, negotiation flag handled; deferred block not yet run
   | fin
+  deriving DecidableEq, Repr
+
+/-- an API goroutine inside `PeerConnection.onNegotiationNeeded` -/
+inductive NPc
+  | idle
+  | tested (empty : Bool)       -- `pc.ops.IsEmpty()` returned `empty`; the flag store / Enqueue not yet done
+  | returned
+  deriving DecidableEq, Repr
+
+/-- ghost events of the negotiation-needed bookkeeping -/
+inductive NegEv
+  | req                         -- a check was requested (onNegotiationNeeded was called / the flag was set)
+  | chk                         -- a check operation started to run
   deriving DecidableEq, Repr
 
 /-- a `GracefulClose` caller -/
@@ -51,6 +89,10 @@ structure St where
   isClosed : Bool := false
   flag : Bool := false               -- updateNegotiationNeededFlagOnEmptyChain
   negCalls : Nat := 0                -- how often onNegotiationNeeded was called by a worker
+  checks : Nat := 0                  -- how many check closures onNegotiationNeeded has created
+  callers : List NPc := []           -- API goroutines calling PeerConnection.onNegotiationNeeded
+  negLog : List NegEv := []          -- ghost: requests and check runs, in order
+  unseen : Bool := false             -- ghost: the flag was stored `true` and no worker has loaded it since
   workers : List WPc := []           -- every worker goroutine ever spawned, in spawn order
   closers : List CPc := []
   doners : List DPc := []
@@ -70,7 +112,12 @@ inductive Action
   | gcRecheck (c : Nat)              -- re-read `o.busyCh` under the lock
   | pop (w : Nat)                    -- worker: `fn = o.pop()` (from `start`, or after `fn()` returned)
   | exec (w : Nat)                   -- worker: enters `fn()`
-  | afterLoop (w : Nat)              -- worker: `fn == nil`: negotiation flag test (+ callback)
+  | afterLoop (w : Nat)              -- worker: `fn == nil`: `flag.Load()`
+  | clearFlag (w : Nat)              -- worker: `flag.Store(false)`
+  | cbBegin (w : Nat)                -- worker: calls the callback (mode `rearm`: up to and incl. `IsEmpty()`)
+  | cbAct (w : Nat)                  -- worker, in the callback: `flag.Store(true)` or `Enqueue(check)`
+  | negTest (n : Nat)                -- API goroutine: `IsEmpty()` in PeerConnection.onNegotiationNeeded
+  | negAct (n : Nat)                 -- API goroutine: `flag.Store(true)` or `Enqueue(check)`
   | deferred (w : Nat)               -- worker: the deferred block (close channel; hand off or clear)
   | setFlag                          -- someone sets updateNegotiationNeededFlagOnEmptyChain
   deriving DecidableEq, Repr
@@ -92,10 +139,18 @@ def popQueue (s : St) : St × Option Item :=
   | [] => (s, none)
   | it :: rest => ({ s with queue := rest }, some it)
 
+/-- `Enqueue(negotiationNeededOp)`: a fresh check closure goes through `tryEnqueue` -/
+def enqCheck (s : St) : St := (tryEnqueue { s with checks := s.checks + 1 } (.check s.checks)).1
+
+/-- second half of `PeerConnection.onNegotiationNeeded`, after `IsEmpty()` returned `empty` -/
+def negApply (s : St) (empty : Bool) : St :=
+  if empty then enqCheck s else { s with flag := true, unseen := true }
+
 /-- one atomic step; `none` = the action is not enabled in this state -/
-def step (s : St) : Action → Option St
+def step (m : NegMode) (s : St) : Action → Option St
   | .enqueue it =>
-      if it ∈ s.accepted then none      -- the program enqueues each closure once (fresh ids)
+      -- the program enqueues each closure once (fresh ids); check closures only come from onNegotiationNeeded
+      if it.isCheck = true ∨ it ∈ s.accepted then none
       else some (tryEnqueue s it).1
   | .doneBegin d =>
       match s.doners[d]? with
@@ -159,13 +214,46 @@ def step (s : St) : Action → Option St
   | .exec w =>
       match s.workers[w]? with
       | some (.popped (some it)) =>
-          some { s with workers := setAt s.workers w (.running it), executed := s.executed ++ [it] }
+          some { s with workers := setAt s.workers w (.running it), executed := s.executed ++ [it],
+                        negLog := if it.isCheck then s.negLog ++ [.chk] else s.negLog }
       | _ => none
   | .afterLoop w =>
       match s.workers[w]? with
       | some (.popped none) =>
-          if s.flag then some { s with flag := false, negCalls := s.negCalls + 1, workers := setAt s.workers w .defer_ }
-          else some { s with workers := setAt s.workers w .defer_ }
+          some { s with workers := setAt s.workers w (if s.flag then .loaded else .defer_), unseen := false }
+      | _ => none
+  | .clearFlag w =>
+      match s.workers[w]? with
+      | some .loaded => some { s with flag := false, workers := setAt s.workers w .cleared }
+      | _ => none
+  | .cbBegin w =>
+      match s.workers[w]? with
+      | some .cleared =>
+          let s := { s with negCalls := s.negCalls + 1 }
+          match m with
+          | .none => some { s with workers := setAt s.workers w .defer_ }
+          | .enqueue =>
+              let s' := enqCheck s
+              some { s' with workers := setAt s'.workers w .defer_ }
+          | .rearm =>
+              some { s with negLog := s.negLog ++ [.req], workers := setAt s.workers w (.cb s.queue.isEmpty) }
+      | _ => none
+  | .cbAct w =>
+      match s.workers[w]? with
+      | some (.cb e) =>
+          let s' := negApply s e
+          some { s' with workers := setAt s'.workers w .defer_ }
+      | _ => none
+  | .negTest n =>
+      match s.callers[n]? with
+      | some .idle =>
+          some { s with negLog := s.negLog ++ [.req], callers := setAt s.callers n (.tested s.queue.isEmpty) }
+      | _ => none
+  | .negAct n =>
+      match s.callers[n]? with
+      | some (.tested e) =>
+          let s' := negApply s e
+          some { s' with callers := setAt s'.callers n .returned }
       | _ => none
   | .deferred w =>
       match s.workers[w]? with
@@ -177,20 +265,49 @@ def step (s : St) : Action → Option St
             if s.queue.isEmpty then some { s with busy := none }
             else some { s with busy := some s.nextGen, nextGen := s.nextGen + 1, workers := s.workers ++ [.start] }
       | _ => none
-  | .setFlag => some { s with flag := true }
+  | .setFlag => some { s with flag := true, negLog := s.negLog ++ [.req], unseen := true }
 
-/-- initial state with `nc` GracefulClose callers and `nd` Done callers that have not started yet -/
-def init (nc nd : Nat) : St :=
-  { closers := List.replicate nc .idle, doners := List.replicate nd .idle, doneSnap := List.replicate nd [] }
+/-- initial state with `nc` GracefulClose callers, `nd` Done callers and `nn` onNegotiationNeeded callers
+    that have not started yet -/
+def init (nc nd nn : Nat) : St :=
+  { closers := List.replicate nc .idle, doners := List.replicate nd .idle, doneSnap := List.replicate nd [],
+    callers := List.replicate nn .idle }
 
-def runActions (s : St) : List Action → Option St
+def runActions (m : NegMode) (s : St) : List Action → Option St
   | [] => some s
-  | a :: as => (step s a).bind (fun s' => runActions s' as)
+  | a :: as => (step m s a).bind (fun s' => runActions m s' as)
 
 /-- every state some interleaving can reach -/
-inductive Reachable (nc nd : Nat) : St → Prop
-  | init : Reachable nc nd (init nc nd)
-  | step {s s' : St} (a : Action) : Reachable nc nd s → step s a = some s' → Reachable nc nd s'
+inductive Reachable (m : NegMode) (nc nd nn : Nat) : St → Prop
+  | init : Reachable m nc nd nn (init nc nd nn)
+  | step {s s' : St} (a : Action) : Reachable m nc nd nn s → step m s a = some s' → Reachable m nc nd nn s'
+
+/-! ### the SWAPPED end of `start` (seeded change C05-4): callback first, `Store(false)` afterwards -/
+
+/-- like `step .rearm`, except that the worker calls the callback right after `Load()` returned true and
+    clears the flag when the callback has returned -/
+def stepSw (s : St) : Action → Option St
+  | .cbBegin w =>
+      match s.workers[w]? with
+      | some .loaded =>
+          some { s with negCalls := s.negCalls + 1, negLog := s.negLog ++ [.req],
+                        workers := setAt s.workers w (.cb s.queue.isEmpty) }
+      | _ => none
+  | .cbAct w =>
+      match s.workers[w]? with
+      | some (.cb e) =>
+          let s' := negApply s e
+          some { s' with workers := setAt s'.workers w .cbDone }
+      | _ => none
+  | .clearFlag w =>
+      match s.workers[w]? with
+      | some .cbDone => some { s with flag := false, workers := setAt s.workers w .defer_ }
+      | _ => none
+  | a => step .rearm s a
+
+def runActionsSw (s : St) : List Action → Option St
+  | [] => some s
+  | a :: as => (stepSw s a).bind (fun s' => runActionsSw s' as)
 
 /-! ### derived notions used by the theorems -/
 
@@ -209,5 +326,52 @@ def liveWorkers (s : St) : Nat := (s.workers.filter WPc.live).length
 
 /-- no goroutine of the queue is left: nothing can run any more without a new enqueue -/
 def quiescent (s : St) : Prop := liveWorkers s = 0
+
+/-- the actions of worker `w` (everything `operations.start` does) -/
+def workerActions (w : Nat) : List Action :=
+  [.pop w, .exec w, .afterLoop w, .clearFlag w, .cbBegin w, .cbAct w, .deferred w]
+
+/-- the actions of the queue's own goroutines: workers and the second half of onNegotiationNeeded calls -/
+def sysAct : Action → Bool
+  | .pop _ => true
+  | .exec _ => true
+  | .afterLoop _ => true
+  | .clearFlag _ => true
+  | .cbBegin _ => true
+  | .cbAct _ => true
+  | .deferred _ => true
+  | .negAct _ => true
+  | _ => false
+
+/-! ### negotiation-needed requests -/
+
+/-- a worker that has cleared the flag and still owes the callback's effect -/
+def WPc.midCall : WPc → Bool
+  | .cleared => true
+  | .cb _ => true
+  | _ => false
+
+/-- an API goroutine between `IsEmpty()` and its flag store / Enqueue -/
+def NPc.midCall : NPc → Bool
+  | .tested _ => true
+  | _ => false
+
+/-- a request was raised after the last check started to run -/
+def owed (s : St) : Bool := s.negLog.getLast? == some NegEv.req
+
+/-- "a requested negotiation-needed check is not lost": while a request is owed, the queue is closed, or the
+    flag is (still) set, or a check has been accepted and has not started yet (it is queued or held by the
+    worker), or a worker is between `Store(false)` and the end of its callback, or an API goroutine is in
+    the middle of onNegotiationNeeded. -/
+def NegInv (s : St) : Prop :=
+  owed s = true →
+    s.isClosed = true ∨ s.flag = true ∨ (∃ it ∈ s.accepted, it.isCheck = true ∧ it ∉ s.executed)
+      ∨ (∃ pc ∈ s.workers, pc.midCall = true) ∨ (∃ pc ∈ s.callers, pc.midCall = true)
+
+instance (s : St) : Decidable (NegInv s) := by unfold NegInv; exact inferInstance
+
+/-- a set flag has been stored after every worker's flag test so far (`unseen`), or the worker that loaded
+    it is about to clear it and call the callback -/
+def FlagInv (s : St) : Prop := s.flag = true → s.unseen = true ∨ WPc.loaded ∈ s.workers
 
 end WebrtcVerif.Ops
